@@ -91,6 +91,7 @@ def gen_cases(tier, seed):
     for k in range(4 if tier == "quick" else 40):
         cases.append({"kind": "http", "dseed": rnd.randrange(2 ** 32),
                       "sharded": k % 2 == 1})
+    cases.append({"kind": "strace"})
     if tier == "thorough":
         # the same enumeration on other dataset geometries / payloads
         for k in range(30):
@@ -593,7 +594,87 @@ def run_http(case):
             "sample": {"case": case}}
 
 
+# --------------------------------------------------------------------------- strace audit
+
+SYSCALL_CLASS = {"openat": "open", "open": "open", "creat": "open", "mkdir": "mkdir",
+                 "mkdirat": "mkdir", "unlink": "unlink", "unlinkat": "unlink",
+                 "rename": "rename", "renameat": "rename", "renameat2": "rename",
+                 "rmdir": "rmdir"}
+HOOK_CLASS = {"open": "open", "os.open": "open", "mkdir": "mkdir", "unlink": "unlink",
+              "remove": "unlink", "rename": "rename", "replace": "rename", "rmdir": "rmdir"}
+
+
+def run_strace(case):
+    """System-call level cross-check of the assumption behind the whole enumeration: every
+    file the repository's storage code touches is seen by the Python-level interposition.
+    A driver performs representative operations under iohook while strace records the
+    file-related system calls of the same process; every successful call on a path below
+    the work directory must have a matching interposed event."""
+    import re
+    import subprocess
+    import sys
+    top = tempfile.mkdtemp(prefix="c18s-")
+    obs = {"cases": 1, "kinds": {"strace": 1}, "strace_syscalls_on_dataset_paths": 0,
+           "strace_fd_relative_calls": 0, "interposed_events_in_driver": 0,
+           "strace_available": 0}
+    v = []
+    try:
+        work = os.path.join(top, "work")
+        log = os.path.join(top, "strace.log")
+        ev = os.path.join(top, "events.json")
+        cmd = ["strace", "-f", "-qq", "-e",
+               "trace=openat,open,creat,mkdir,mkdirat,unlink,unlinkat,rename,renameat,"
+               "renameat2,rmdir", "-o", log, sys.executable, "-W", "ignore", "-m",
+               "harness.io_driver", work, ev]
+        try:
+            p = subprocess.run(cmd, capture_output=True, text=True, timeout=300)
+        except (OSError, subprocess.TimeoutExpired) as exc:
+            obs["strace_error"] = [f"{type(exc).__name__}: {exc}"]
+            return {"violations": [], "obs": obs}
+        if p.returncode != 0 or not os.path.exists(ev):
+            obs["strace_error"] = [p.stderr[-300:]]
+            return {"violations": [], "obs": obs}
+        obs["strace_available"] = 1
+        with open(ev) as f:
+            events = json.load(f)
+        obs["interposed_events_in_driver"] = len(events)
+        seen = {(HOOK_CLASS[op], os.path.normpath(path)) for op, path in events
+                if op in HOOK_CLASS}
+        pat = re.compile(r'^\d+\s+(\w+)\((?:(AT_FDCWD|\d+), )?"([^"]*)"(.*)\)\s+= (-?\d+)')
+        missing = []
+        with open(log) as f:
+            for line in f:
+                m = pat.match(line)
+                if not m:
+                    continue
+                name, dirfd, path, rest, ret = m.groups()
+                if name not in SYSCALL_CLASS or int(ret) < 0:
+                    continue
+                if dirfd not in (None, "AT_FDCWD") and not path.startswith("/"):
+                    obs["strace_fd_relative_calls"] += 1
+                    continue
+                path = os.path.normpath(path)
+                if not path.startswith(work + os.sep) or path == os.path.join(work, "tmp"):
+                    continue
+                cls = SYSCALL_CLASS[name]
+                if name == "unlinkat" and "AT_REMOVEDIR" in rest:
+                    cls = "rmdir"
+                if "O_DIRECTORY" in rest:
+                    continue          # directory handles of scandir/rmtree
+                obs["strace_syscalls_on_dataset_paths"] += 1
+                if (cls, path) not in seen:
+                    missing.append(f"{name} {os.path.relpath(path, work)}")
+        if missing:
+            obs["interposition_gaps"] = missing[:10]
+    finally:
+        shutil.rmtree(top, ignore_errors=True)
+    return {"violations": v, "obs": obs, "evals": 1,
+            "sample": {"case": case, "syscalls": obs["strace_syscalls_on_dataset_paths"]}}
+
+
 def run_case(case):
+    if case["kind"] == "strace":
+        return run_strace(case)
     return run_http(case) if case["kind"] == "http" else run_storage(case)
 
 
@@ -601,7 +682,10 @@ def gates(obs, tier):
     calls = obs.get("calls", {})
     ck = obs.get("call_kinds", {})
     return {
-        "file_and_sharded_and_http": len(obs.get("kinds", {})) == 3,
+        "file_and_sharded_and_http": len(obs.get("kinds", {})) == 4,
+        "interposition_complete_at_system_call_level": obs.get("strace_available", 0) > 0
+        and obs.get("strace_syscalls_on_dataset_paths", 0) > 50
+        and not obs.get("interposition_gaps"),
         "writers_and_readers_reached": calls.get("FileAccessor.store_chunk", 0) > 0
         and calls.get("Shard.close", 0) > 0 and calls.get("Shard.read_bytes", 0) > 0,
         "all_io_call_kinds_intercepted": all(ck.get(k, 0) > 0 for k in
